@@ -206,7 +206,8 @@ def make_o1(k, roles_pool, outcome_pool, types):
             enabled = en.fresh_bool("enabled_x")
             dr.ENABLED[sc.x] = enabled
             case = lambda mv: {"type": tname, "decl": decl, "opt": opt, "k": k, "outcomes": outcomes,  # noqa
-                               "enabled": mv.bool(enabled), "listvals": [isinstance(v, list) for v in values]}
+                               "enabled": mv.bool(enabled), "listvals": [isinstance(v, list) for v in values],
+                               "values": [[mv.int(x) for x in v] if isinstance(v, list) else mv.int(v) for v in values]}
             en.note_sample(case)
             broker = dr.run(dr.get_dependency_graph(sc.x))   # set-iteration schedules are C04's subject, not varied here
             # the real guard has branched on `enabled`; read back which side this path is on
@@ -378,7 +379,7 @@ def make_o3(ncomp):
             present = [o == "value" for o in outcomes]
             values = [en.fresh_int("v%d" % i) for i in range(4)]
             w = TypeWorld(impl_req, impl_opt, roles, lambda i: outcomes[i], lambda i: values[i])
-            case = lambda mv: {"kind": "types", "impl_req": impl_req, "impl_opt": impl_opt, "roles": roles, "outcomes": outcomes}  # noqa
+            case = lambda mv: {"kind": "types", "impl_req": impl_req, "impl_opt": impl_opt, "roles": roles, "outcomes": outcomes, "values": [mv.int(v) for v in values]}  # noqa
             en.note_sample(case)
             broker = dr.run(w.xs)
             eqs = []
@@ -457,12 +458,14 @@ def validate(tier):
 
 def _native(case):
     if case.get("kind") == "types":
-        values = [100 + 10 * i for i in range(4)]
+        values = case.get("values") or [100 + 10 * i for i in range(4)]
         w = TypeWorld(case["impl_req"], case["impl_opt"], case["roles"], lambda i: case["outcomes"][i], lambda i: values[i])
         broker = dr.run(w.xs)
         return [("args-bound", b) for b in judge_types(w, [o == "value" for o in case["outcomes"]], values, broker)]
     k = case["k"]
     values = [[100 + 10 * i, 101 + 10 * i] if case["listvals"][i] else 100 + 10 * i for i in range(k)]
+    if case.get("values"):
+        values = case["values"]          # the dependency values of the counterexample (0, negative, ... matter to truthiness slips)
     sc, broker = run_scenario(case["type"], case["decl"], case["opt"], k, case["outcomes"], values, enabled=case["enabled"])
     present = [o == "value" for o in case["outcomes"]]
     res = judge(case["type"], case["decl"], case["opt"], k, present, values, case["enabled"], sc, broker)
